@@ -256,6 +256,7 @@ class Scenario:
                 shown = self.examined.get(actor)
             if shown != nonce:
                 self.wrong_breaks.append({"breaker": actor, "examined": self.noncemap.get(shown),
+                                          "force_break_arg": self.noncemap.get(self.examined.get(actor)),
                                           "removed": owner, "removed_holder_live": live_holder})
 
     wrong_breaks = None
